@@ -123,7 +123,8 @@ func openStorage(dir string, opt Options) (*storage, error) {
 	if s.log, err = log.Open(filepath.Join(dir, "log"), 0700, logOpt); err != nil {
 		return nil, err
 	}
-	discardLog := s.log.LastIndex() < s.snaps.index
+	// the log ends before the snapshot, or starts after it (killed inside Log.Reset)
+	discardLog := s.log.LastIndex() < s.snaps.index || s.log.PrevIndex() > s.snaps.index
 	if s.log.Contains(s.snaps.index) {
 		// an installed snapshot replaces a log that has another term at its index
 		var term uint64
